@@ -3,7 +3,7 @@
 (* sessions of CallStep / CallSignal on real CallableSchemas and logs, under   *)
 (* one lock (so the order is a real total order), one line per gate-visible    *)
 (* stage:                                                                      *)
-(*   {"ev":"reset","calls":[call..],"display":{step:shape}}  a new session     *)
+(*   {"ev":"reset","calls":[call..],"display":{step:shape},"reg":[step..],"sigreg":{step:..}}  new session *)
 (*                                        starts (fresh schema, these displays) *)
 (*   {"ev":"begin","p":P}                 goroutine P enters its call          *)
 (*   {"ev":"init","p":P}                  the initializer runs in P's call     *)
@@ -26,10 +26,12 @@ tvars == <<vars, l>>
 CallOf(c) == [kind |-> c.kind, step |-> c.step, run |-> c.run, sig |-> c.sig, input |-> c.input, beh |-> c.beh]
 CV(e) == [p \in Procs |-> CallOf(e.calls[p])]
 DV(e) == [s \in StepIds |-> e.display[s]]
+LV(e) == [reg |-> {e.reg[i] : i \in DOMAIN e.reg}, sigreg |-> [s \in StepIds |-> e.sigreg[s]]]
 
-ResetTo(cv, d) ==
+ResetTo(cv, d, lay) ==
     /\ call' = cv
     /\ display' = d
+    /\ layout' = lay
     /\ pc' = [p \in Procs |-> "idle"]
     /\ arg' = [p \in Procs |-> "none"]
     /\ mutex' = [s \in StepIds |-> 0]
@@ -45,7 +47,7 @@ ClassMatches(logged, spec) ==
     ELSE logged = spec
 
 Logged(e) ==
-    IF e.ev = "reset" THEN AllDone /\ ResetTo(CV(e), DV(e))
+    IF e.ev = "reset" THEN AllDone /\ ResetTo(CV(e), DV(e), LV(e))
     ELSE LET p == e.p IN
          /\ p \in Procs
          /\ CASE e.ev = "begin"    -> Begin(p)
@@ -66,7 +68,7 @@ TInit ==
     /\ TLCSet(1, 0)
     /\ Len(Trace) >= 1
     /\ Trace[1].ev = "reset"
-    /\ InitWith(CV(Trace[1]), DV(Trace[1]))
+    /\ InitWith(CV(Trace[1]), DV(Trace[1]), LV(Trace[1]))
     /\ l = 2
 
 TNext ==
